@@ -664,9 +664,12 @@ def _check_cycles(ix, fail, P):
   for n, (q, num, snap, nleft) in enumerate(cyc):
     qn = cyc[n + 1][0] if n + 1 < len(cyc) else len(log)
     ran = set()
+    executed = None
     for e in log[q:qn]:
       if e[0] == "step":
         ran.add(e[1])
+      elif e[0] == "exe" and e[1] == num:
+        executed = e[2]
     present = {}
     for pos, (tid, prio) in enumerate(snap):
       if tid not in present:
@@ -677,10 +680,10 @@ def _check_cycles(ix, fail, P):
     for tid, (pos, prio) in present.items():
       if tid in P and tid not in track and (prio is None or prio >= 1):
         track[tid] = (num, pos, nleft)
-    if snap and snap[0][0] not in ran and (snap[0][1] is None or snap[0][1] >= 1):
-      # the head of the queue was popped by this cycle but no step ran: its return function aborted the slice
-      # (Send retrying); it re-enters the queue later and is tracked afresh
-      track.pop(snap[0][0], None)
+    if executed is not None and executed not in ran:
+      # this cycle gave its slice to `executed` but no step ran: its return function aborted the slice (a Send that
+      # goes on after a partial write).  It had its turn; when it re-enters the queue it is tracked afresh.
+      track.pop(executed, None)
     for tid in ran:
       if tid in track:
         c0, pos, l0 = track.pop(tid)
